@@ -547,7 +547,7 @@ func epBadEntries(c *RunCtx, cfg badCfg) *Result {
 func runC12(c *RunCtx) {
 	for typ := 0; typ < 8; typ++ {
 		for variant := 0; variant < 4; variant++ {
-			for v := 0; v < c.Q(12, 400); v++ {
+			for v := 0; v < c.Q(40, 400); v++ {
 				typ, variant, v := typ, variant, v
 				c.Program(fmt.Sprintf("fidelity/t%d/v%d/%d", typ, variant, v), func(p *Prog) {
 					seed := p.Rng.Next()
